@@ -6,6 +6,7 @@ src = sys.argv[1].rstrip('/')
 tier = sys.argv[2] if len(sys.argv) > 2 else "quick"
 meta = json.load(open(os.path.join(src, "meta.json")))
 prop = meta["property"]
+check_prop = os.environ.get("SEED_CHECK_PROP", prop)  # a defect may be caught by another property's check
 name = os.path.basename(src)
 ENV = dict(os.environ, GOFLAGS="-mod=mod", GOPROXY="off")
 def sh(cmd, cwd=None, timeout=900):
@@ -53,8 +54,9 @@ if confirmed:
         t0 = time.time()
         vd = "/tmp/seedcheck-verif-%d" % os.getpid()
         sh("rm -rf %s && mkdir -p %s && cp -r /verif/props /verif/harness /verif/known_findings.json %s/ && mkdir -p %s/engine && ln -s /verif/engine/gosym %s/engine/gosym" % (vd, vd, vd, vd, vd))
-        rc, out = sh("VERIF_REPO=%s VERIF_DIR=%s /verif/engine/gosym check %s %s" % (wt2, vd, prop, tier), timeout=7200)
+        rc, out = sh("VERIF_REPO=%s VERIF_DIR=%s /verif/engine/gosym check %s %s" % (wt2, vd, check_prop, tier), timeout=7200)
         res["check_tier"] = tier
+        res["check_property"] = check_prop
         res["check_exit"] = rc
         res["check_wall_s"] = round(time.time() - t0, 1)
         lines = [l for l in out.splitlines() if l.startswith("VIOLATION") or l.startswith("  ") and ("ASSERT" in l or "PANIC" in l or "RACE" in l or "HANG" in l)]
